@@ -422,11 +422,13 @@ func (e *kvElection) becomeLeader(token string, rev uint64) bool {
 		}
 	}
 
-	e.isLeader.Store(true)
+	// The claim is published last: IsLeader(), Token() and LeaderID() are read
+	// without the mutex (also by the watcher's stale-event filter, which compares
+	// an event's revision with the term's), so whoever sees the claim must see
+	// the term's token, revision and leader id as well.
 	e.leaderID.Store(e.cfg.InstanceID)
 	e.token.Store(token)
 	e.revision.Store(rev)
-	e.state.Store(StateLeader)
 	now := time.Now()
 	e.lastHeartbeat.Store(now)
 	e.lastTransition.Store(now)
@@ -434,6 +436,8 @@ func (e *kvElection) becomeLeader(token string, rev uint64) bool {
 	// Health failures are counted per term: a count left over from an earlier
 	// term must not shorten this one.
 	e.healthFailureCount.Store(0)
+	e.state.Store(StateLeader)
+	e.isLeader.Store(true)
 
 	e.recordTransition(fromState, StateLeader)
 	e.updateIsLeaderMetric()
